@@ -191,6 +191,7 @@ CLAIMS = {
        'kernel; hook go/pkg/cisco/verif_hooks.go (build tag verif) and harness/cmd/nah/ciscoparse.go; byte-level model (ASCII white space). '
        'Eight runtime panics found while modelling were repaired (F-C20-3..10); two deliberate panic(err) sites that the repository tests '
        'expect are recorded as known findings (F-C20-1, F-C20-2).',
+  extra_note=' Added: the Linux parser (ParseConfig, parseRoutes, parseIPTables) has its own GoSlice-style model (Robust/LinuxParse.v) with C20_linux_parse_never_runtime_panic for every text; tie: outcome class (accepted / which of the eight diagnostics) of drc against the model on Linux members of the family.',
   technique='Coq theorems (no runtime panic of a GoSlice-style parser model for all texts and all tables passing tables_ok) + tables regenerated from source + differential check of the parsed configuration + exhaustive run of the finite input family'),
  'C03': dict(
   text='Strict Gallina semantics of a PAN-OS vsys candidate configuration and of the XML-API commands drc emits (set = create / merge, edit = '
